@@ -358,7 +358,12 @@ class Quantity(GenericQuantity):
         UnitsError
             If `units` are incompatible with the units of this quantity.
         """
-        return '%g %s' % (self.in_units(units), units)
+        # Positional notation with six significant digits: the units parser
+        # does not read e/E exponents.
+        number = np.format_float_positional(
+            self.in_units(units), precision=6, unique=False, fractional=False,
+            trim='-')
+        return '%s %s' % (number, units)
 
 
 class ArrayQuantity(GenericQuantity, np.ndarray):
